@@ -26,6 +26,7 @@ func (core *JApiCore) collectTag(d *directive.Directive) *jerr.JApiError {
 	if err := core.catalog.AddTag(d.NamedParameter("TagName"), d.Annotation); err != nil {
 		return d.KeywordError(err.Error())
 	}
+	core.declaredTags[d.NamedParameter("TagName")] = struct{}{}
 
 	return nil
 }
